@@ -46,7 +46,9 @@ def control_devs(s):
 
 def cases(tier):
     out = []
-    keep = lambda d: d["k"] in COMMON
+    # a TCV with setting 0 and no minor loss is a loss-free link: EPANET gives it a tiny resistance, WNTR none, and two of
+    # them on a cycle make WNTR's system singular - a modelling corner, kept out of the common feature set (C02 covers it)
+    keep = lambda d: d["k"] in COMMON and not (d["k"] == "valve" and d.get("vt") == "TCV" and d.get("setting") == 0.0)
     base = netspace.enumerate_cases(1 if tier == "quick" else 2, keep=keep)
     if tier == "quick":
         # named pairs: a pattern needs a pattern-related option to show, a valve needs both unit families etc.
@@ -176,8 +178,13 @@ def compare(s, a, b, la, lb, upto, counts, near=0.05, limit_steps=()):
             if inside:
                 counts["pdd_band_steps"] = counts.get("pdd_band_steps", 0) + 1
         msg = None
+        closed_now = set(l["n"] for l in s["links"] if float(a.link["status"][l["n"]][i]) == 0 and float(b.link["status"][l["n"]][i]) == 0)
+        conn = connected_to_source(s, closed_now)
         for nd in s["nodes"]:
             nm = nd["n"]
+            if nm not in conn:
+                counts["isolated_node_skips"] = counts.get("isolated_node_skips", 0) + 1
+                continue            # cut off from every source in both engines: WNTR reports zeros (C09), EPANET a floating head
             for key, tol in (("head", HTOL), ("pressure", HTOL), ("demand", QTOL)):
                 if key == "pressure" and nd["t"] == "res":
                     continue        # a reservoir has no pressure (EPANET reports head - base head)
@@ -334,11 +341,12 @@ def run_case(s):
             cls = "%s:%s" % (s.get("id", {}).get("skel"), _devfull(s) if not back else dk)
             w0 = (rw.warnings or [""])[0]
             # mechanism classes (narrow by cause, not by placement)
-            if nsolved == 0 and "singular" in w0:
+            wall = " ".join(rw.warnings)
+            if nsolved == 0 and "did not converge" in wall:
                 for l in s["links"]:
                     if l["t"] in ("PRV", "PSV", "FCV") and l["status"] == "ACTIVE" and len(re_.times) and float(re_.link["status"][l["n"]][0]) != 2.0:
                         cls = "initial-active-status-infeasible:%s" % l["t"]
-            elif "maximum number of iterations" in w0 and any(l["t"] == "ppump" for l in s["links"]) and not back:
+            if not cls.startswith("initial-active") and "did not converge" in wall and any(l["t"] == "ppump" for l in s["links"]) and not back:
                 cls = "power-pump:newton-iteration-limit"
             viol.append({"key": "A:wntr-fails:%s" % cls, "what": "EPANET solves %d warning-free report steps but WNTRSimulator stops after %d (%s)" % (upto, nsolved, rw.warnings[:1])})
             upto = nsolved
